@@ -75,7 +75,7 @@ def run(tier, seed):
     base = ctrace.gather_programs(rng, 12 if quick else 60, corpus=('ok',) if quick else ('example', 'ok'),
                                   gen_kw=dict(maxdepth=2, maxstmts=3), base_args=())
     if quick:
-        base = [b for i, b in enumerate(base) if i % 3 == 0 or b[0].startswith('gen:')]
+        base = [b for i, b in enumerate(base) if i % 3 == 0 or b[0].startswith('gen:') or b[0].startswith('corpus/')]
     items = []
     for name, src, args in base:
         for k, row in enumerate(rows):
